@@ -171,7 +171,12 @@ var VNil = Ctor("VNil", SVal)
 var strLitText = map[*Term]string{}
 
 func StrLit(s string) *Term {
-	t := Leaf(fmt.Sprintf("str%q", s), SStr)
+	name := fmt.Sprintf("str%q", s)
+	if strings.ContainsAny(name, "|\\") {
+		// not expressible inside an SMT-LIB quoted symbol: name the literal by its bytes
+		name = fmt.Sprintf("strx%x", s)
+	}
+	t := Leaf(name, SStr)
 	strLits[t] = true
 	strLitText[t] = s
 	return t
